@@ -61,10 +61,27 @@ def replay_scenarios(ck, binary, name, scenarios, threads, label):
     return summary
 
 
+def design_level(ck, thorough):
+    """spec/math/Chunking.tla: every interleaving of the chunk processes of batch_iter_mut! for the
+    power-series and batch-inversion closures; the finished array must equal the element-wise one."""
+    cfg = "MCChunking_batch_thorough.cfg" if thorough else "MCChunking_batch.cfg"
+    r = vf.tlc("Chunking.tla", cfg, cwd=SPECDIR, workers=4, timeout=1800 if thorough else 300)
+    ck.add_tlc("design:chunking", r)
+    if not r.ok:
+        raise vf.ToolError("design-level chunking model %s failed its own invariant (specification bug): %s" % (cfg, r.error))
+    ck.require(r.distinct > 20000, "chunking model explored too few states: %d" % r.distinct)
+    if thorough:
+        # fill_power_series as found: the model reproduces the n = 0 out-of-bounds write (informational)
+        r2 = vf.tlc("Chunking.tla", "MCChunking_found.cfg", cwd=SPECDIR, workers=1, timeout=300)
+        ck.part("design:chunking-as-found", reproduces_n0_out_of_bounds=(not r2.ok and "InBounds" in (r2.error or "")),
+                tlc_states=r2.distinct)
+
+
 def run(ck, tier):
     thorough = tier == "thorough"
     serial = vf.build_harness("math")
     conc = vf.build_harness("math", variant="concurrent")
+    design_level(ck, thorough)
     cfg = "GenBatch_thorough.cfg" if thorough else "GenBatch.cfg"
     r = vf.tlc("Batch.tla", cfg, cwd=SPECDIR, workers=4, timeout=3000 if thorough else 600,
                env={"SEED": ck.seed % 40009})
@@ -91,7 +108,12 @@ def run(ck, tier):
     ck.require(s1["concurrent"] is False, "the serial binary was built with the concurrent feature")
     s2 = replay_scenarios(ck, conc, "concurrent", sc, THREADS, "concurrent")
     ck.require(s2["concurrent"] is True and s2["runs"] == len(THREADS), "the concurrent binary did not run all pools")
-    ck.bounds = {"lengths": "0..70 (100 thorough) one by one; big lengths of %s; %d distinct lengths, max %d" % (cfg, len(lens), max(lens)),
+    if thorough:
+        # debug assertions and overflow checks on (the configuration `cargo test` uses)
+        replay_scenarios(ck, vf.build_harness("math", profile="dev"), "serial-dev", sc, [], "serial-dev")
+        replay_scenarios(ck, vf.build_harness("math", variant="concurrent", profile="dev"), "concurrent-dev", sc, [3, 16], "concurrent-dev")
+    ck.bounds = {"design": "Chunking.tla: all interleavings, n <= 16 (40 thorough), threads 1..16, scaled MinBatch",
+                 "lengths": "0..70 (100 thorough) one by one; big lengths of %s; %d distinct lengths, max %d" % (cfg, len(lens), max(lens)),
                  "threads": THREADS, "fields": "F_257, F_257^2, F_257^3, F_40961, F_40961^2, F_40961^3"}
     ck.exhaustive = False
     ck.assumptions = ["toy field types implement FieldP.tla's arithmetic",
@@ -102,9 +124,11 @@ def run(ck, tier):
 def replay(ck, path):
     obj = json.load(open(path))
     rp = obj["replay"]
-    if rp.get("build") == "concurrent":
-        binary = vf.build_harness("math", variant="concurrent")
-        replay_scenarios(ck, binary, "replay", [rp["scenario"]], [rp.get("threads") or 4], "concurrent")
+    build = rp.get("build", "serial")
+    profile = "dev" if build.endswith("-dev") else "release"
+    if build.startswith("concurrent"):
+        binary = vf.build_harness("math", variant="concurrent", profile=profile)
+        replay_scenarios(ck, binary, "replay", [rp["scenario"]], [rp.get("threads") or 4], build)
     else:
-        binary = vf.build_harness("math")
-        replay_scenarios(ck, binary, "replay", [rp["scenario"]], [], "serial")
+        binary = vf.build_harness("math", profile=profile)
+        replay_scenarios(ck, binary, "replay", [rp["scenario"]], [], build)
